@@ -48,6 +48,12 @@ def gen_cases(ctx):
         {"op": "aggregate", "by": ["a"], "frame": {"n": 4, "cols": [{"name": "a", "kind": "str", "vals": ["a\x00", "a", "a\x00", "b"]}, {"name": "v", "kind": "float", "vals": [1.0, 2.0, 3.0, 1.0]}]}},
         {"op": "count", "by": ["a"], "frame": {"n": 4, "cols": [{"name": "a", "kind": "str", "vals": ["a\x00", "a", "a\x00", "b"]}, {"name": "v", "kind": "float", "vals": [1.0, 2.0, 3.0, 1.0]}]}},
     ]
+    # known finding (reserved-name): a data column named like the grouping code's own bookkeeping columns
+    for nm in ("_index_", "_group_", "_sorted_index_"):
+        for op in ("split", "aggregate", "count", "modify"):
+            cases.append({"op": op, "by": [nm], "frame": {"n": 4, "cols": [{"name": nm, "kind": "int", "vals": [5, 5, 7, 7]}, {"name": "v", "kind": "float", "vals": [1.0, 2.0, 3.0, 4.0]}]}})
+            cases.append({"op": op, "by": ["g"], "frame": {"n": 4, "cols": [{"name": "g", "kind": "int", "vals": [1, 2, 1, 2]}, {"name": nm, "kind": "int", "vals": [5, 6, 7, 8]},
+                                                                           {"name": "v", "kind": "float", "vals": [1.0, 2.0, 3.0, 4.0]}]}})
     # large groups (well beyond any small-size special case of a kernel) with ties for the most common value whose first
     # occurrence is not the smallest value: the shorthand helper is a statistic of the group's rows IN THEIR ORIGINAL ORDER
     for _ in range(8 if ctx.tier == "quick" else 100):
